@@ -12,10 +12,16 @@ def image : Image :=
   { len := 0x8000,
     byte := fun i => if i = 0x147 then 0x10 else if i = 0x148 then 0x00 else if i = 0x149 then 0x03 else 0 }
 
-def fresh : Option Mbc :=
-  match construct image with
+def imageOf (typ ramSize : Nat) : Image :=
+  { len := 0x8000,
+    byte := fun i => if i = 0x147 then typ else if i = 0x148 then 0x00 else if i = 0x149 then ramSize else 0 }
+
+def freshOf (img : Image) : Option Mbc :=
+  match construct img with
   | some c => busWrite c 0x0000 0x0a
   | none => none
+
+def fresh : Option Mbc := freshOf image
 
 def getStr (r : Rtc.St) : String :=
   hexN 2 r.s ++ " " ++ hexN 2 r.m ++ " " ++ hexN 2 r.h ++ " " ++ hexN 4 r.d ++ " " ++ b01 r.carry ++ " " ++
@@ -42,6 +48,11 @@ def get (s : Option Mbc) : String :=
 def step (s : Option Mbc) (w : List String) : Option Mbc × String :=
   match w with
   | ["reset"] => (fresh, match fresh with | some _ => "ok" | none => "fail")
+  | ["reset", t, ras] => match parseHex t, parseHex ras with
+      | some t, some ras =>
+        let f := freshOf (imageOf t ras)
+        (f, match f with | some _ => "ok" | none => "fail")
+      | _, _ => (s, "bad-op")
   | ["set", a, b, c, d, e, f, g] =>
     match a.toNat?, b.toNat?, c.toNat?, d.toNat?, e.toNat?, f.toNat?, g.toNat? with
     | some a, some b, some c, some d, some e, some f, some g =>
